@@ -282,8 +282,8 @@ func (w *World) diverge(what string, n *Node, a, b string) {
 		w.tainted = map[string]bool{}
 	}
 	if what == "gas-used-of-tx-rejected-before-ante" {
-		if strings.HasPrefix(w.node().name, "R") && !strings.HasPrefix(n.name, "R") {
-			w.tainted["*primary"] = true
+		if n == w.node() || (strings.HasPrefix(w.node().name, "R") && !strings.HasPrefix(n.name, "R")) {
+			w.tainted["*primary"] = true // the primary is the node whose meter differs: every comparison is affected
 		} else {
 			w.tainted[n.name] = true
 		}
